@@ -280,6 +280,16 @@ StepCfg ==
   /\ UNCHANGED <<fid, cverf, stale, T, acked, hverf, seenverf, dev, stats>>
   /\ bad' = bad \cup (IF TreeOf(Cur.tree) # PreT THEN {[l |-> l, prop |-> "C02", why |-> "a configuration update changed the tree"]} ELSE {})
 
+\* read-only switched on while an admitted request was still in the backend: once the update has
+\* returned the backend must see no modifying operation
+StepROSwitch ==
+  /\ Cur.ev = "roswitch"
+  /\ cfg' = Cur.cfg
+  /\ UNCHANGED <<fid, cverf, stale, T, acked, hverf, seenverf, dev, stats>>
+  /\ bad' = bad \cup (IF Cur.mut_after > 0
+                      THEN {[l |-> l, prop |-> "C08", why |-> "read-only in force (update returned) but a request admitted earlier still modified the backend"]}
+                      ELSE {})
+
 StepReq ==
   /\ Cur.ev = "req"
   /\ UNCHANGED <<cfg, T, seenverf>>
@@ -293,7 +303,7 @@ StepReq ==
   /\ stats' = [stats EXCEPT !.req = @ + 1, !.ok = @ + (IF Cur.ok THEN 1 ELSE 0), !.fail = @ + (IF Cur.ok THEN 0 ELSE 1),
                             !.attrs = @ + Len(Attrs)]
 
-Consume == l <= N /\ l' = l + 1 /\ (StepReset \/ StepReq \/ StepCfg \/ StepCrash)
+Consume == l <= N /\ l' = l + 1 /\ (StepReset \/ StepReq \/ StepCfg \/ StepCrash \/ StepROSwitch)
 
 Finish == /\ l = N + 1 /\ l' = N + 2
           /\ JsonSerialize(IOEnv.VF_RESULT, [n |-> N, consumed |-> l - 1, bad |-> bad, dev |-> dev, drift |-> {}, stats |-> stats])
